@@ -40,7 +40,11 @@ TYPES = {
     "u-bs":   ("type ubs;", ["bool:true", "str:True", "str:1", "str:abc", "bool:false", "str:t"]),
     "u-iu":   ("type uiu;", ["enum:CIRCLE", "uint8:9", "enum:TRI", "uint8:0"]),
     "u-eu":   ("type ueu;", ["enum:E1", "uint32:9", "enum:E2", "uint32:0"]),
-    "binary": ("type binary;", ["bin:00ff10", "bin:", "bin:616263"]),
+    # members declared against the numeric order of their kinds: a value both accept belongs to the first
+    "u-ul":   ("type uul;", ["uint64:5", "int64:-3", "uint64:0", "uint64:18446744073709551615", "int64:-9223372036854775808"]),
+    # a 64-bit signed member first: its zero is a Go zero value of kind int64
+    "u-lb":   ("type ulb;", ["int64:0", "bool:true", "int64:-7", "bool:false", "int64:9007199254740993"]),
+    "binary": ("type binary;", ["bin:00ff10", "bin:", "bin:616263", "bin:fbefbe"]),   # fbefbe is "++++" in base64
     "empty":  ("type empty;", ["empty"]),
 }
 
@@ -58,6 +62,7 @@ T_VARIANTS = {
     "t8": ["uint32", "string", "u-eu",   "dec2",   "dec2",   "u-is",  "idref",  "u-eu",   "u-is",  "u-eu",   "int32",  "u-eu",   "dec2",   "u-eu", "dec2"],
     "t9": ["dec2",   "uint8",  "int8",   "enum",   "int16",  "enum",  "dec2",   "int8",   "int64", "int8",   "boolean", "int64",  "uint16", "int64", "boolean"],
     "t10": ["u-bu",  "u-iu",   "u-iu",   "u-bu",   "u-bs",   "u-bu",  "u-iu",   "uint8",  "u-bu",  "int32",  "string", "u-iu",   "u-bu",   "u-bu",  "u-bu"],
+    "t11": ["u-lb",  "u-ul",   "u-iu",   "u-ul",   "u-ul",   "u-lb",  "u-ul",   "u-lb",   "u-ul",  "u-ul",   "u-lb",   "u-lb",   "u-ul",   "u-lb",  "u-lb"],
 }
 OC_VARIANTS = {
     "o1": ["string", "int32",  "string", "uint8",  "string", "string", "int8",  "string", "uint16", "string", "uint8",  "string", "uint64", "string", "int16"],
@@ -65,6 +70,7 @@ OC_VARIANTS = {
     "o3": ["u-is",   "dec2",   "u-eu",   "int64",  "u-is",   "u-eu",  "string", "int64",  "u-is",  "enum",   "u-is",   "boolean", "idref",  "u-is", "u-is"],
     "o4": ["int64",  "binary", "uint64", "boolean", "int8",  "binary", "dec2",  "idref",  "int64", "uint64", "int64",  "u-eu",   "dec2",   "dec2", "uint64"],
     "o5": ["u-bu",   "u-iu",   "u-bu",   "u-bu",   "u-bs",   "u-iu",  "u-bu",   "uint16", "u-bu",  "string", "string", "u-bu",   "u-bu",   "u-bu", "u-bu"],
+    "o6": ["u-lb",   "u-ul",   "u-ul",   "u-lb",   "u-ul",   "u-lb",  "u-ul",   "u-lb",   "u-ul",  "u-lb",   "u-ul",   "u-lb",   "u-ul",   "u-lb", "u-ul"],
 }
 
 
@@ -85,7 +91,9 @@ def gen_tree():
            "  typedef ueu { type union { type e12; type uint32; } }\n"
            "  typedef ubu { type union { type uint16; type binary; } }\n"
            "  typedef ubs { type union { type boolean; type string; } }\n"
-           "  typedef uiu { type union { type identityref { base vf-ids:SHAPE; } type uint8; } }\n\n"]
+           "  typedef uiu { type union { type identityref { base vf-ids:SHAPE; } type uint8; } }\n"
+           "  typedef uul { type union { type uint64; type int64; } }\n"
+           "  typedef ulb { type union { type int64; type boolean; } }\n\n"]
     out.append("  container vt {\n")
     for name, types in T_VARIANTS.items():
         r = dict(zip(ROLES, types))
@@ -127,7 +135,9 @@ def gen_oc():
            "  typedef ueu { type union { type e12; type uint32; } }\n"
            "  typedef ubu { type union { type uint16; type binary; } }\n"
            "  typedef ubs { type union { type boolean; type string; } }\n"
-           "  typedef uiu { type union { type identityref { base vf-ids:SHAPE; } type uint8; } }\n\n"]
+           "  typedef uiu { type union { type identityref { base vf-ids:SHAPE; } type uint8; } }\n"
+           "  typedef uul { type union { type uint64; type int64; } }\n"
+           "  typedef ulb { type union { type int64; type boolean; } }\n\n"]
     out.append("  container vo {\n")
     for name, types in OC_VARIANTS.items():
         r = dict(zip(ROLES, types))
